@@ -792,7 +792,7 @@ func TestC17(t *testing.T) {
 	r.Assume("h1 reference decides the request boundary and response framing; goroutine ids taken from runtime.Stack attribute conn operations; 'the server is done' = the goroutine that ran the hijack handler no longer exists")
 	r.Assume("deadlines are observed, not waited for: every Set*Deadline call on the conn is logged; at the start of the hijack handler the last read and the last write deadline set by the server must be zero (or never set) and no deadline call may follow; the handler itself sets none")
 	r.Assume("requests with 'Connection: close' (documented: hijack handler skipped) are executed but not judged (events connclose_*)")
-	n := r.N(8000, 60000)
+	n := r.N(8000, 40000)
 	mon.Parallel(n, 0, func(i int) {
 		if !r.Want(i) {
 			return
